@@ -91,13 +91,18 @@ Qed.
 Print Assumptions c01_condition_text_from_source_shape.
 
 (* primary-key conditions (First(&x, key), Find(&x, k1, k2), Where(key), Delete(&x, keys)), for ALL keys:
-   a driver.Valuer that yields a non-nil value (not a []byte), given as the only key, is ONE key
-   whatever its Go kind - the condition is `key column = ?`, bound once to the Valuer's value *)
+   a driver.Valuer that yields a non-nil value (a []byte included, 70948e8), given as the only key, is
+   ONE key whatever its Go kind - the condition is `key column = ?`, bound once to the Valuer's value *)
 Theorem c01_valuer_key_bound_once : forall numbered e s, scalar_key s ->
   map (bval numbered e) (build_condition (VDrv s) []) =
   [ptext (quote_col e current_table primary_key "" false) ++ pstr " = " ++ [PV s]].
 Proof. exact valuer_key_bound_once. Qed.
 Print Assumptions c01_valuer_key_bound_once.
+
+(* a []byte as the only argument is one key, handed whole to AddVar *)
+Theorem c01_bytes_key : forall b, build_condition (VS (SBytes b)) [] = [VIn primary_column [VS (SBytes b)]].
+Proof. exact bytes_key_cond. Qed.
+Print Assumptions c01_bytes_key.
 
 (* a list as the only argument is the list of keys, whatever its element type (LU8 included) *)
 Theorem c01_list_key : forall k x l, build_condition (VList k (x :: l)) [] = [VIn primary_column (x :: l)].
